@@ -268,6 +268,7 @@ def gen_ops(rng: random.Random, n: int, maximum: int, chunk: int, length: int, s
 
 
 SMALL_STREAM = bytes([0x61, 0x62, 0x0a, 0x63, 0x0d, 0x0a, 0x64, 0x65])      # a b LF c CR LF d e
+SMALL_UTF8 = bytes([0xc3, 0xa4, 0xe2, 0x82, 0xac, 0xf0, 0x9f, 0x98])        # U+00E4, U+20AC, a four-byte sequence cut after three bytes
 ALPHABET = ['S1', 'S2', 'R3', 'E', 'B1', 'B2', 'D', 'P0', 'W0', 'U0', 'Many', 'Mstn', 'Meolf']
 
 
@@ -284,19 +285,20 @@ def gen_leaf_cases(tier: str, rng: random.Random) -> Tuple[List[LeafCase], Dict[
     nscripts = 3 if quick else 10
     cnt = 0
     nsched = 0
-    for n in range(0, 9):
-        stream = SMALL_STREAM[:n]
+    for small, n in [(SMALL_STREAM, n) for n in range(0, 9)] + [(SMALL_UTF8, n) for n in range(1, 9)]:
+        stream = small[:n]
         comps = compositions(n)
         nsched += len(comps)
         for chunk in CHUNKS:
             for maximum in range(1, 41):
                 eol = 'lf_crlf' if (maximum + chunk) % 4 else 'cr_crlf'
-                scripts = [gen_ops(rng, n, maximum, chunk, rng.randint(6, 14), ['scan', 'atoms', 'mixed'][j % 3], stream, eol) for j in range(nscripts)]
+                scripts = [gen_ops(rng, n, maximum, chunk, rng.randint(6, 14), ['scan', 'atoms', 'mixed'][j % 3] if small is SMALL_STREAM else 'atoms', stream, eol)
+                           for j in range(nscripts)]
                 for comp in comps:
                     for ops in scripts:
                         cases.append((chunk, maximum, eol, stream, comp, ops))
                         cnt += 1
-    dist['families']['all_schedules'] = {'cases': cnt, 'stream_lengths': '0..8', 'schedules_compositions': nsched, 'maximum': '1..40',
+    dist['families']['all_schedules'] = {'cases': cnt, 'stream_lengths': '0..8', 'streams': [SMALL_STREAM.hex(), SMALL_UTF8.hex()], 'schedules_compositions': nsched, 'maximum': '1..40',
                                          'chunks': CHUNKS, 'scripts_per_configuration': nscripts}
     # (b) every operation sequence up to a length over a 13-letter alphabet, small configurations
     maxlen = 3 if quick else 4
